@@ -51,9 +51,9 @@ CHECKS.update({
 
 CHECKS.update({
     'C06': dict(level=EX, engine='E3 CrossHair', design='3/C06',
-                technique='CrossHair path exploration of the real format() over a seeded slice of the verification grammar and over lexeme choices x 14 option sets; oracle re-lexes the output with the real lexer',
+                technique='CrossHair path exploration of the real format() over a seeded slice of the verification grammar and over lexeme choices x 15 option sets, plus CrossHair runs with wrap_after as an unbounded symbolic integer; oracle re-lexes the output with the real lexer',
                 text='explored, not proven: every script of the slice/lexeme bound under each of 14 option sets keeps exactly its sequence of non-whitespace tokens and its statement count. The filter code rewrites trees by object identity and C-level joins; no SMT encoding of it is within reach, so the claim is exploration only.',
-                note='1/6779 (quick) or 1/499 (thorough) of 544 320 generated scripts per option set, slice chosen by VERIF_SEED; other option combinations outside'),
+                note='1/9973 (quick) or 1/499 (thorough) of 544 320 generated scripts per option set, slice chosen by VERIF_SEED; other option combinations outside'),
     'C08': dict(level=MC, engine='E3 CrossHair + E1', design='3/C08',
                 technique='CrossHair symbolic execution of the real token filters (symbolic literal body, unbounded symbolic width, symbolic marker; token type x value x case tables) + E1 SMT queries on what the filters assume about lexer tokens + CrossHair over strip_comments on lexeme choices',
                 text='the token-stream filters are pure maps, confirmed over all paths incl. ANY truncation width; z3 shows every String.Single token is quote-delimited and every identifier token non-blank (the seams the filters rely on); strip_comments is explored end-to-end. One known finding (adjacent comments).',
